@@ -549,3 +549,59 @@ def run_control(ctx):
     ctx.check("instrument: set_instrument emits the instrument event", seq3.log == [("instr", 4, 17, 2)], {}, [("instr", 4, 17, 2)], seq3.log)
     ctx.case(("observers",))
     ctx.sample({"control_change(3, 129, 0)": Rec().control_change(3, 129, 0)})
+    # drawn histories of attaching, detaching and playing on two sequencers at once: every observer holds exactly the events
+    # its sequencers emitted while it was attached to them, each once
+    rng = ctx.rng("observer-walk")
+    for w in range(40 if ctx.tier == "quick" else 400):
+        seqs = [Rec(), Rec()]
+        obs = [Obs() for _ in range(rng.randint(1, 4))]
+        attached = [set(), set()]
+        expect = [[] for _ in obs]
+        trail = []
+        for step in range(rng.randint(4, 16)):
+            si = rng.randrange(2)
+            s = seqs[si]
+            k = rng.random()
+            if k < 0.3:
+                oi = rng.randrange(len(obs))
+                s.attach(obs[oi])
+                attached[si].add(oi)
+                trail.append("attach %d to %d" % (oi, si))
+                continue
+            if k < 0.45:
+                oi = rng.randrange(len(obs))
+                s.detach(obs[oi])
+                attached[si].discard(oi)
+                trail.append("detach %d from %d" % (oi, si))
+                continue
+            mark = len(s.log)
+            a = rng.randrange(6)
+            if a == 0:
+                n = Note(rng.choice(["C", "F#", "Bb"]), rng.randint(1, 6))
+                n.channel = rng.randint(1, 15)
+                s.play_Note(n), s.stop_Note(n)
+                trail.append("note on %d" % si)
+            elif a == 1:
+                b = Bar()
+                for nm in rng.sample(["C", "E", "G", "A"], rng.randint(1, 4)):
+                    b.place_notes(nm, rng.choice([4, 8]))
+                s.play_Bar(b, rng.randint(1, 15), rng.choice([60, 120, 200]))
+                trail.append("bar on %d" % si)
+            elif a == 2:
+                s.control_change(rng.randint(0, 15), rng.randint(0, 128), rng.randint(0, 128))
+                trail.append("cc on %d" % si)
+            elif a == 3:
+                s.set_instrument(rng.randint(0, 15), rng.randint(0, 127), rng.randint(0, 3))
+                trail.append("instrument on %d" % si)
+            elif a == 4:
+                s.play_NoteContainer(NoteContainer(["C", "E"]), rng.randint(1, 15)), s.stop_NoteContainer(NoteContainer(["C", "E"]), 1)
+                trail.append("container on %d" % si)
+            else:
+                s.stop_everything()
+                trail.append("stop everything on %d" % si)
+            for oi in attached[si]:
+                expect[oi].extend(s.log[mark:])
+        for oi, o in enumerate(obs):
+            ctx.check("observer: attached observers receive exactly the sequencer's own event sequence", o.log == expect[oi],
+                      {"history": trail, "observer": oi}, [len(expect[oi]), expect[oi][:4]], [len(o.log), o.log[:4]], mechanism="observer-walk")
+        ctx.case(("observer-walk", tuple(trail)))
